@@ -9,12 +9,14 @@ Open Scope bool_scope.
 
 (* NewFilterFS(fs, &FilterOpt{FollowPaths: reqs}) with no other option set:
      targets := FollowLinks(fs, reqs)
-     if targets != nil { includePatterns = dedupePaths(append(nil, targets...)) }
-   [follow] = what FollowLinks returned (None = nil); dedupePaths answers nil when it meets ".".
-   Result None = patternmatcher.New refused the list. *)
+     if targets != nil { includePatterns = append(includePatterns, targets...) }
+   [follow] = what FollowLinks returned (None = nil).  Result None = patternmatcher.New refused
+   the list.  (Before the fix of finding dedupe-order-sensitive-includes the combined list was
+   passed through dedupePaths once more; for a FollowPaths-only filter that is the identity:
+   theorem follow_targets_dedupe_fixpoint.) *)
 Definition follow_includes (follow : option (list bytes)) : list bytes :=
   match follow with
-  | Some l => match dedupe_paths l with Some l' => l' | None => [] end
+  | Some l => l
   | None => []
   end.
 Definition follow_cfg (follow : option (list bytes)) : option cfg := mk_cfg (follow_includes follow) [].
